@@ -213,8 +213,9 @@ class ProgramModel:
         if os.environ.get("EFA_NO_CANON") != "1":
             from .canon import Canonicaliser, substitute_constants, lower_match_statements
             self.n_match_lowered = sum(lower_match_statements(tree) for _, tree, _ in self.modules.values())
-            from .canon import lower_partialmethods
+            from .canon import lower_partialmethods, lower_callable_instances
             self.n_partialmethods = sum(lower_partialmethods(tree) for _, tree, _ in self.modules.values())
+            self.n_callable_instances = sum(lower_callable_instances(tree) for _, tree, _ in self.modules.values())
             n_const = sum(substitute_constants(tree) for _, tree, _ in self.modules.values())
             self.canon_stats = Canonicaliser(self).run()
             self.canon_stats["constants_substituted"] = n_const
